@@ -10,7 +10,12 @@
 (*            fitting / non-fitting values                                   *)
 EXTENDS Integers, Sequences, FiniteSets, SequencesExt
 
-CONSTANTS Family, Sizes, Aligns, NObj
+CONSTANTS Families,      \* subset of {"place", "syms", "reloc"}
+          Sizes, Aligns,  \* section sizes / alignments of family "place"
+          Shape,          \* "2+1" | "2+2" | "2+1+1": sections per object in family "place"
+          Statuses,       \* subset of {"absent", "local", "gdef", "gref"} for family "syms"
+          SymObjs3,       \* TRUE: three objects in family "syms"
+          RelSizes        \* section sizes of family "reloc"
 
 S(n, sz, al) == [name |-> n, size |-> sz, align |-> al]
 Y(id, n, b, def, sec, val) == [id |-> id, name |-> n, binding |-> b, def |-> def, sec |-> sec, value |-> val,
@@ -35,9 +40,11 @@ GName == <<"g1", "g2", "g3">>
 PlaceObj(o, secs) == O(secs,
     <<Y(10, GName[o], "global", TRUE, secs[1].name, secs[1].size),
       Y(20, "l", "local", TRUE, secs[Len(secs)].name, 0)>>, <<>>, -1)
-PlaceInputs == IF NObj = 2
-    THEN {<<PlaceObj(1, s1), PlaceObj(2, s2)>> : s1 \in TwoSecs, s2 \in OneSec \cup TwoSecs}
-    ELSE {<<PlaceObj(1, s1), PlaceObj(2, s2), PlaceObj(3, s3)>> : s1 \in TwoSecs, s2 \in OneSec, s3 \in OneSec}
+PlaceInputs ==
+    CASE Shape = "2+1" -> {<<PlaceObj(1, s1), PlaceObj(2, s2)>> : s1 \in TwoSecs, s2 \in OneSec}
+      [] Shape = "2+2" -> {<<PlaceObj(1, s1), PlaceObj(2, s2)>> : s1 \in TwoSecs, s2 \in OneSec \cup TwoSecs}
+      [] Shape = "2+1+1" -> {<<PlaceObj(1, s1), PlaceObj(2, s2), PlaceObj(3, s3)>> :
+                                s1 \in TwoSecs, s2 \in OneSec, s3 \in OneSec}
 PlaceLayouts == {
     NoLayout,
     L("", <<M("m1", 2, 12, <<I("section", "a", 0), I("align", "", 4), I("section", "b", 0), I("symbol", "e", 0)>>)>>),
@@ -49,7 +56,6 @@ PlaceOpts == {Opt(FALSE, "", <<>>)}
 -----------------------------------------------------------------------------
 (* family "syms": names x, y; per object each name is absent, a local definition,   *)
 (* a global definition or a global reference                                       *)
-Status == {"absent", "local", "gdef", "gref"}
 SymOf(id, n, st) == IF st = "local" THEN <<Y(id, n, "local", TRUE, "a", 0)>>
                     ELSE IF st = "gdef" THEN <<Y(id, n, "global", TRUE, "a", 1)>>
                     ELSE IF st = "gref" THEN <<Y(id, n, "global", FALSE, "", 0)>>
@@ -58,8 +64,8 @@ SymObj(sx, sy, entry) == LET syms == SymOf(7, "x", sx) \o SymOf(3, "y", sy) IN
     O(<<S("a", 1, 1)>>, syms,
       IF Len(syms) > 0 THEN <<R("t1", syms[1].id, "a", 0, 1)>> ELSE <<>>,
       IF entry /\ sx = "gdef" THEN 7 ELSE -1)
-SymObjs(entry) == {SymObj(sx, sy, entry) : sx \in Status, sy \in Status}
-SymInputs == IF NObj = 2 THEN {<<p, q>> : p \in SymObjs(TRUE), q \in SymObjs(FALSE)}
+SymObjs(entry) == {SymObj(sx, sy, entry) : sx \in Statuses, sy \in Statuses}
+SymInputs == IF ~SymObjs3 THEN {<<p, q>> : p \in SymObjs(TRUE), q \in SymObjs(FALSE)}
              ELSE {<<p, q, r>> : p \in SymObjs(FALSE), q \in SymObjs(FALSE), r \in SymObjs(FALSE)}
 SymLayouts == {NoLayout, L("", <<>>),
                L("", <<M("m", 8, 64, <<I("section", "a", 0), I("symbol", "y", 0)>>)>>),
@@ -78,18 +84,19 @@ RelChoices(sz) == {<<>>}
 RelObj(o, sz, al, rels) == O(<<S("a", sz, al)>>,
     <<Y(10, GName[o], "global", TRUE, "a", 0), Y(20, "l", "local", TRUE, "a", sz)>>, rels, -1)
 RelInputs == {<<RelObj(1, s1, a1, r1), RelObj(2, s2, a2, r2)>> :
-                 s1 \in Sizes, s2 \in Sizes, a1 \in Aligns, a2 \in Aligns,
-                 r1 \in UNION {RelChoices(s) : s \in Sizes}, r2 \in UNION {RelChoices(s) : s \in Sizes}}
+                 s1 \in RelSizes, s2 \in RelSizes, a1 \in {1, 2}, a2 \in {1, 2},
+                 r1 \in UNION {RelChoices(s) : s \in RelSizes}, r2 \in UNION {RelChoices(s) : s \in RelSizes}}
 RelInputsOK == {x \in RelInputs : \A o \in 1..2 : \A k \in 1..Len(x[o].rels) :
                     x[o].rels[k].off + x[o].rels[k].size <= x[o].secs[1].size}
 RelLayouts == {NoLayout, L("", <<M("m", 6, 32, <<I("section", "a", 0), I("sectiondata", "a", 0)>>)>>)}
 
 -----------------------------------------------------------------------------
-Inputs  == CASE Family = "place" -> PlaceInputs [] Family = "syms" -> SymInputs [] Family = "reloc" -> RelInputsOK
-Layouts == CASE Family = "place" -> PlaceLayouts [] Family = "syms" -> SymLayouts [] Family = "reloc" -> RelLayouts
-Opts    == CASE Family = "place" -> PlaceOpts [] Family = "syms" -> SymOpts [] Family = "reloc" -> PlaceOpts
+Inputs(f)  == CASE f = "place" -> PlaceInputs [] f = "syms" -> SymInputs [] f = "reloc" -> RelInputsOK
+Layouts(f) == CASE f = "place" -> PlaceLayouts [] f = "syms" -> SymLayouts [] f = "reloc" -> RelLayouts
+Opts(f)    == CASE f = "place" -> PlaceOpts [] f = "syms" -> SymOpts [] f = "reloc" -> PlaceOpts
 
 \* every combination, except partial links with a layout ("Can only apply layout in non-partial links")
-MCJobs == SetToSeq({j \in {[inp |-> x, lay |-> y, opt |-> z] : x \in Inputs, y \in Layouts, z \in Opts} :
-                      ~(j.opt.partial /\ j.lay.on)})
+JobsOf(f) == {j \in {[inp |-> x, lay |-> y, opt |-> z] : x \in Inputs(f), y \in Layouts(f), z \in Opts(f)} :
+                ~(j.opt.partial /\ j.lay.on)}
+MCJobs == SetToSeq(UNION {JobsOf(f) : f \in Families})
 =============================================================================
